@@ -69,7 +69,8 @@ def run(ctx, env):
         if not ctx.anchor("R8.1", path, b):
             continue
         ex = Exporter(prog, an, b)
-        got = ex.flat()
+        from .export import expand_enc
+        got = expand_enc(prog, an, ex.flat())
         exp = expected_layout(lay, an, S)
         if got is None or exp is None:
             ctx.ob("R8.1", path, "layout", False, "exporter result buffer or parser layout not recoverable")
